@@ -8,6 +8,7 @@
 #include <thread>
 #include <mutex>
 #include "aes_hash.hpp"
+#include "directed_inputs.hpp"
 
 using namespace rxv;
 
@@ -99,6 +100,26 @@ RXV_SUBCOMMAND(c02) {
 			});
 			for (auto& x : th) x.join();
 			R.count("directed_candidates_screened", budget);
+			// fixed directed inputs: found once by a 6-million-candidate search and committed (harness/directed_inputs.hpp), so that
+			// every run - not two runs out of three - reaches both ends of the dataset-offset range (and the values next to them).
+			// The configuration block depends on the input only, so the list serves every key. Each entry is re-screened with the
+			// library's generators: an entry that no longer yields its recorded offset is counted as stale (never an alarm by
+			// itself - the digest comparison below decides) and still hashed.
+			const size_t nFixed = sizeof(kFixedDirected) / sizeof(kFixedDirected[0]);
+			std::vector<uint8_t> sp(RANDOMX_SCRATCHPAD_L3 + 64);
+			uint8_t* spa = (uint8_t*)(((uintptr_t)sp.data() + 63) & ~(uintptr_t)63);
+			for (size_t f = 0; f < nFixed; ++f) {
+				if (f % args.nshards != args.shard % args.nshards) continue;
+				const char* s = kFixedDirected[f].input; const size_t len = strlen(s);
+				alignas(16) uint64_t st[8]; alignas(16) uint64_t cfg[16];
+				mdl::hash512(st, (const uint8_t*)s, len);
+				if (hard) { fillAes1Rx4<false>(st, RANDOMX_SCRATCHPAD_L3, spa); fillAes4Rx4<false>(st, 128, cfg); }
+				else { fillAes1Rx4<true>(st, RANDOMX_SCRATCHPAD_L3, spa); fillAes4Rx4<true>(st, 128, cfg); }
+				const uint64_t off = cfg[13] & 0x7FFFF;
+				if (off == kFixedDirected[f].offset) R.count(off >= 0x7FFFE ? "fixed_directed_inputs_high_dataset_offset" : "fixed_directed_inputs_low_dataset_offset");
+				else R.count("fixed_directed_inputs_stale");
+				directed.emplace_back((const uint8_t*)s, (const uint8_t*)s + len);
+			}
 		}
 
 		for (int v2 = 0; v2 < 2; ++v2) {
